@@ -15,6 +15,17 @@ MOD_BLOCKS = [
     ("f_none", "def f_none(a):\n    return a\n", "f_none = None\n"),
     ("f_partial", "def f_partial(a):\n    return a\n", "f_partial = functools.partial(f_ok, 1)\n"),
     ("f_builtin", "def f_builtin(a):\n    return a\n", "f_builtin = len\n"),
+    # the name is re-bound to ANOTHER function: an alias, a closure made by a factory, a plain (non-wraps) decorator
+    ("f_alias", "def f_alias(a):\n    return a\n", "f_alias = f_ok2\n"),
+    ("f_closure", "def f_closure(a):\n    return a\n", "def _factory():\n    def handler(a):\n        return a\n    return handler\n\n\nf_closure = _factory()\n"),
+    ("f_plaindeco", "def f_plaindeco(a):\n    return a\n", "@plain_deco\ndef f_plaindeco(a):\n    return a\n"),
+    # still the same function: functools.wraps-style wrappers (lru_cache sets __wrapped__), a function moved to another
+    # module and re-exported under the same name
+    ("f_lru", "def f_lru(a):\n    return a\n", "@functools.lru_cache(maxsize=None)\ndef f_lru(a):\n    return a\n"),
+    ("f_moved", "def f_moved(a):\n    return a\n", "from fxpkg.other import f_moved  # noqa\n"),
+    # the name is re-bound to a partial of the function itself
+    ("f_selfpartial", "def f_selfpartial(a, b=0):\n    return a\n",
+     "def f_selfpartial(a, b=0):\n    return a\n\n\nf_selfpartial = functools.partial(f_selfpartial, b=1)\n"),
     ("f_class", "def f_class(a):\n    return a\n", "class f_class:\n    def __init__(self, a):\n        self.a = a\n"),
     ("f_argcls", "def f_argcls(a, b):\n    return b\n", None),
     ("f_retcls", "def f_retcls(a):\n    return a\n", "def f_retcls(a):\n    yield a\n"),             # became a generator
@@ -23,6 +34,12 @@ MOD_BLOCKS = [
     ("f_nested", "def f_nested(a):\n    return a\n", None),
     ("f_params", "def f_params(a, b):\n    return a\n", "def f_params(a, c):\n    return a\n"),
     ("f_outer", "def f_outer():\n    def inner(x):\n        return x\n    return inner\n", None),
+    # a method whose name still resolves -- to ANOTHER, non-local function: by inheritance once the override is deleted,
+    # or because the attribute is now an alias of another class's method
+    ("Base", "class Base:\n    def run(self, x):\n        return x\n", None),
+    ("Sub.run", "class Sub(Base):\n    def run(self, x):\n        return x\n\n    def keep(self, x):\n        return x\n",
+     "class Sub(Base):\n    def keep(self, x):\n        return x\n"),
+    ("Ali.run", "class Ali:\n    def run(self, x):\n        return x\n", "class Ali:\n    run = Base.run\n"),
     ("KGone", "class KGone:\n    def meth(self, x):\n        return x\n", ""),
 ]
 K_BLOCKS = [
@@ -35,7 +52,16 @@ K_BLOCKS = [
     ("K.prop_del", "    @property\n    def prop_del(self):\n        return 3\n",
      "    @property\n    def prop_del(self):\n        return 3\n\n    @prop_del.deleter\n    def prop_del(self):\n        pass\n"),
     ("K.prop_nog", "    @property\n    def prop_nog(self):\n        return 4\n", "    prop_nog = property()\n"),
+    # the remaining combinations of fget / fset / fdel (prop: g, prop_set: g+s, prop_del: g+d, prop_nog: none)
+    ("K.prop_gsd", "    @property\n    def prop_gsd(self):\n        return 5\n",
+     "    @property\n    def prop_gsd(self):\n        return 5\n\n    @prop_gsd.setter\n    def prop_gsd(self, v):\n        pass\n\n"
+     "    @prop_gsd.deleter\n    def prop_gsd(self):\n        pass\n"),
+    ("K.prop_s", "    @property\n    def prop_s(self):\n        return 6\n", "    prop_s = property(None, lambda self, v: None)\n"),
+    ("K.prop_d", "    @property\n    def prop_d(self):\n        return 7\n", "    prop_d = property(None, None, lambda self: None)\n"),
+    ("K.prop_sd", "    @property\n    def prop_sd(self):\n        return 8\n",
+     "    prop_sd = property(None, lambda self, v: None, lambda self: None)\n"),
     ("K.m_removed", "    def m_removed(self, x):\n        return x\n", ""),
+    ("K.pm", "    def pm(self, x):\n        return x\n", "    pm = functools.partialmethod(meth, 1)\n"),
 ]
 KINDS_BLOCKS = [
     ("Keep", "class Keep:\n    pass\n", None),
@@ -49,7 +75,8 @@ KINDS_BLOCKS = [
     ("Outer.Inner", "class Outer:\n    class Inner:\n        pass\n", "class Outer:\n    pass\n"),
 ]
 MOD_HEADER = ("import functools\n\n\n"
-              "def deco(fn):\n    @functools.wraps(fn)\n    def wrapper(*a, **k):\n        return fn(*a, **k)\n    return wrapper\n")
+              "def deco(fn):\n    @functools.wraps(fn)\n    def wrapper(*a, **k):\n        return fn(*a, **k)\n    return wrapper\n\n\n"
+              "def plain_deco(fn):\n    def wrapper(*a, **k):\n        return fn(*a, **k)\n    return wrapper\n")
 
 # whole-file mutations
 FILE_MUTS = {
@@ -83,6 +110,7 @@ def files_for(muts):
         "fxpkg/sub/__init__.py": "",
         "fxpkg/sub/leaf.py": "class L:\n    pass\n\n\ndef leaf_f(x):\n    return x\n",
         "fxpkg/broken.py": "def broken_f(x):\n    return x\n",
+        "fxpkg/other.py": "def f_moved(a):\n    return a\n",
         "fxtop.py": "class T:\n    pass\n\n\ndef tf(x):\n    return x\n\n\ndef tf2(x, y):\n    return y\n",
         "fxpkg/mod.py": MOD_HEADER + "\n\n" + _blocks(MOD_BLOCKS, muts, "\n\n") + "\n\nclass K:\n"
                         + _blocks(K_BLOCKS, muts, "\n"),
@@ -113,15 +141,30 @@ NLE, ITE = "NameLookupError", "InvalidTypeError"
 K_ARG, K_RET, K_YLD, K_NT = ("argument class removed", "return class removed", "yield class removed",
                              "class name now bound to a non-type")
 F_REMOVED = ("f_removed", NLE, "function removed")
+K_OTHERFN = "function replaced by another function (own qualified name differs)"
 STALE_BY = {
     "removed": [F_REMOVED],
     "nonfunc": [("f_nonfunc", ITE, "function replaced by a non-function")],
     "none": [("f_none", ITE, "function replaced by a non-function")],
     "partial": [("f_partial", ITE, "function replaced by a non-function")],
     "cls": [("f_class", ITE, "function replaced by a class")],
+    "builtin": [("f_builtin", ITE, K_OTHERFN)],
+    "alias": [("f_alias", ITE, K_OTHERFN)],
+    "closure": [("f_closure", ITE, K_OTHERFN)],
+    "plaindeco": [("f_plaindeco", ITE, K_OTHERFN)],
+    "pm": [("K.pm", ITE, K_OTHERFN)],
+    "selfpartial": [("f_selfpartial", ITE, "function replaced by a non-function")],
+    "alias_argcls": [("f_alias", ITE, K_OTHERFN), ("A", NLE, K_ARG)],
     "prop_set": [("K.prop_set", ITE, "function replaced by a settable property")],
     "prop_del": [("K.prop_del", ITE, "function replaced by a settable property")],
     "prop_nog": [("K.prop_nog", ITE, "function replaced by a property without getter")],
+    "prop_gsd": [("K.prop_gsd", ITE, "function replaced by a settable property")],
+    "prop_s": [("K.prop_s", ITE, "function replaced by a property without getter")],
+    "prop_d": [("K.prop_d", ITE, "function replaced by a property without getter")],
+    "prop_sd": [("K.prop_sd", ITE, "function replaced by a property without getter")],
+    "sub_run": [("Sub.run", ITE, K_OTHERFN)],
+    "ali_run": [("Ali.run", ITE, K_OTHERFN)],
+    "sub_run_ret": [("Sub.run", ITE, K_OTHERFN), ("B", NLE, K_RET)],
     "m_removed": [("K.m_removed", NLE, "function removed")],
     "kgone": [("KGone", NLE, "function removed")],
     "argcls": [("A", NLE, K_ARG)],
@@ -174,7 +217,7 @@ ALWAYS_STALE = {"local": (NLE, "function defined in a local scope"),
                 "local2": (NLE, "function defined in a local scope")}
 # decodes, but one traced parameter name no longer exists
 PARAMS_TAG = ("params", "f_params", "parameter names that no longer exist")
-VALID_TAGS = ["ok_a", "ok_b", "ok2", "gen", "wrapped", "meth", "cm", "sm", "prop", "td"]
+VALID_TAGS = ["ok_a", "ok_b", "ok2", "gen", "wrapped", "meth", "cm", "sm", "prop", "td", "lru", "moved", "base_run", "sub_keep"]
 # every mutation of the classes / modules that rows mention, plus the ones that only change a function's shape
 TYPE_MUTS = ["A", "B", "C", "D", "E", "S", "M", "Outer.Inner", "mod:gone", "mod:sub", "mod:fxtop",
              "f_params", "f_yieldcls", "f_retcls"]
